@@ -253,6 +253,11 @@ def closure_key(path):
 
 def load(features=ALL_FEATURES, repo=None, use_cache=True):
     facts, meta = extract(features, repo=repo, use_cache=use_cache)
+    # crate-internal helpers are recognised by role (signature), not by name: see anchors.py
+    from . import anchors
+    facts, renamed = anchors.normalise(facts)
+    if renamed:
+        meta = dict(meta, renamed_roles=renamed)
     return FactBase(facts, meta)
 
 
